@@ -46,6 +46,33 @@ type orC18 struct {
 
 func (o *orC18) name() string { return "C18" }
 
+// a host's health record reports a disk usage only when one was measured: the guard treats a
+// replica without a report as unknown, not as empty
+func (o *orC18) onHealthRecord(e *ZKEvent) {
+	m := o.m
+	if !m.primary["C18"] || e.Err != 0 || !(e.Op == "set" || e.Op == "create") || !strings.HasPrefix(e.Path, "/test/health/") || !m.isDaemon(e.Inc) {
+		return
+	}
+	h := strings.TrimPrefix(e.Path, "/test/health/")
+	var hf healthFull
+	if json.Unmarshal([]byte(e.Data), &hf) != nil {
+		return
+	}
+	hist := m.diskHist[h]
+	if len(hist) == 0 {
+		return
+	}
+	last := hist[len(hist)-1]
+	grace := 2*ms(m.s.spec.Cfg.HealthMs) + 2*time.Second
+	if !last.ok && m.s.now()-last.t > grace {
+		m.probe("c18_health_record_of_unmeasurable_host_checked")
+		if _, known := hf.usage(); known {
+			u, _ := hf.usage()
+			m.violate("C18", "report", "disk-usage-reported-although-not-measurable", fmt.Sprintf("%s published a health record with disk usage %.0f%% for %s, whose usage has not been measurable since %v", e.Inc, u, h, last.t))
+		}
+	}
+}
+
 type diskView struct {
 	masterUsage          float64
 	masterKnown          bool
@@ -186,6 +213,7 @@ func (o *orC18) onSQL(ev *SQLEvent) {
 
 func (o *orC18) onZK(e *ZKEvent) {
 	m := o.m
+	o.onHealthRecord(e)
 	if !m.primary["C18"] || e.Err != 0 || e.Path != "/test/low_space" || !m.isDaemon(e.Inc) || (e.Op != "set" && e.Op != "create") {
 		return
 	}
